@@ -46,6 +46,13 @@ func Main() {
 				}
 			}
 			st.AllowRestart()
+			st.OnHangExit = func() {
+				writeJSON(*child, st)
+				if st.Done {
+					os.Exit(0)
+				}
+				os.Exit(3)
+			}
 			WalkResume(name, New(name), lts, *seed, *walks, *depth, *maxm, st)
 			writeJSON(*child, st)
 			if st.Done {
